@@ -465,6 +465,23 @@ pub fn run(run: &mut Run) {
             }
         }
     });
+    // tiny samples (0..=8 elements) x admissible and inadmissible quantiles: every data front-end must report what the
+    // index-only entry point reports, also when several rejections apply at once
+    {
+        let mut cases = vec![];
+        for n in 0usize..=8 {
+            for (qi, q) in [0.5, 0.25, 0.0, -0.0, 1.0, -0.1, 1.5, f64::NAN, f64::INFINITY, f64::NEG_INFINITY, 5e-324, 1.0 - f64::EPSILON / 2.0, 0.99, 0.01].into_iter().enumerate() {
+                for kind in 0u8..3 {
+                    let codes: Vec<u8> = (0..n).map(|i| ((i * 5 + qi) % 7) as u8).collect();
+                    cases.push(ElemCase { ty: TYPES[(n + qi + kind as usize) % 5].into(), codes, conf: Conf::new(kind, [0.9, 0.5, 0.99][(n + qi) % 3]), q: X(q) });
+                }
+            }
+        }
+        for c in &cases {
+            run.case("elements_tiny", c, elem_case);
+        }
+        run.exhaustive_parts.push("sample sizes 0..=8 x 14 admissible / inadmissible quantiles x 3 kinds through every data front-end against ci_indices".into());
+    }
     // random multisets with ties, random permutations
     let s = (prop::collection::vec(0u8..14, 4..=63), prop::collection::vec(any::<u16>(), 63), crate::gen::conf(), 1u32..1000, 0usize..5)
         .prop_map(|(codes, perm, conf, qm, ty)| ElemCase { ty: TYPES[ty].into(), codes: crate::gen::permute(&codes, &perm), conf, q: X(qm as f64 / 1000.0) });
@@ -529,7 +546,7 @@ pub fn replay(sub: &str, v: &Value, obs: &mut Obs) -> Option<PResult> {
         "history" => crate::props::history::case(&de(v), obs),
         "rank" | "rank_random" => rank_case(&de(v), obs),
         "index" => index_case(&de(v), obs),
-        "elements" | "elements_random" => elem_case(&de(v), obs),
+        "elements" | "elements_random" | "elements_tiny" => elem_case(&de(v), obs),
         "elements_large" => Ok(()),
         _ => return None,
     })
